@@ -42,7 +42,10 @@ def init_worker(ctx):
 
 
 def strategy(ctx):
-    return gen_ir.interface("executable", min_params=1, max_params=6, returns=False)
+    return st.one_of(
+        gen_ir.interface("executable", min_params=1, max_params=6, returns=False),
+        gen_ir.interface("executable", min_params=1, max_params=6, returns=False, doc=gen_ir.mixed_descr, name_strategy=gen_ir.rich_names),
+    )
 
 
 def namespace():
